@@ -121,13 +121,15 @@ pub struct DiskState {
     pub cfg: DiskCfg,
     pub faults: Vec<FaultSpec>,
     pub cur_op: u32,
-    ord: [u32; 4],
+    pub ord: [u32; 4],
     pub op_events: u64,
     pub dead: bool,
     persistent: [bool; 4],
     /// A hard fault (anything that made a call return an error other than
     /// EINTR) was injected since the flag was last cleared.
     pub hard_fault_fired: bool,
+    /// sticky: some hard fault fired on this disk at some point
+    pub ever_hard_fault: bool,
     pub budget_exceeded: bool,
     pub stats: DiskStats,
     pub digest: u64,
@@ -147,6 +149,7 @@ impl DiskState {
             dead: false,
             persistent: [false; 4],
             hard_fault_fired: false,
+            ever_hard_fault: false,
             budget_exceeded: false,
             stats: DiskStats::default(),
             digest: 0,
@@ -241,6 +244,7 @@ impl DiskState {
         }
         if self.persistent[k] {
             self.hard_fault_fired = true;
+            self.ever_hard_fault = true;
             return Err(io::Error::new(io::ErrorKind::Other, "simdisk: persistent fault"));
         }
         let cur = self.cur_op;
@@ -251,6 +255,7 @@ impl DiskState {
         {
             let persistent = f.persistent;
             self.hard_fault_fired = true;
+            self.ever_hard_fault = true;
             if persistent {
                 self.stats.hard_persistent[k] += 1;
                 self.persistent[k] = true;
@@ -342,6 +347,7 @@ impl Write for SimDisk {
             if pos + buf.len() as u64 > cap {
                 st.stats.storage_full += 1;
                 st.hard_fault_fired = true;
+                st.ever_hard_fault = true;
                 st.log(EvKind::Write, pos, buf.len() as u64, 3);
                 return Err(io::Error::new(io::ErrorKind::StorageFull, "simdisk: disk full"));
             }
